@@ -104,6 +104,44 @@ def gen_and_run(ctx, avh, avm, seed, tier, enable, nscripts, tag, avh_oracle=Non
     return res
 
 
+def merge_stream(ctx, avh, avm, seed, tier, avh_oracle):
+    """third stream: agent-c09's merge scripts (masters split into 2-4 files, every load order, seven kinds of conflicting
+    files that are REJECTED at the merge stage) run through the same correspondence and the same state oracle.  Returns one
+    shard record in the format of gen_and_run."""
+    os.makedirs(TW, exist_ok=True)
+    key = hashlib.sha256(("merge|%s|%s|%s|%s" % (file_digest([avh, avm, avh_oracle]), file_digest([os.path.join(DUMP, "spec_tables.txt")]),
+                                                 seed, tier)).encode()).hexdigest()[:24]
+    cdir = os.path.join(TW, "cache-" + key)
+    meta = os.path.join(cdir, "result.json")
+    if os.path.exists(meta):
+        return json.load(open(meta))
+    os.makedirs(cdir, exist_ok=True)
+    open(os.path.join(cdir, "tag"), "w").write("merge")
+    sf = os.path.join(cdir, "m.txt")
+    r = {"shard": 0, "script_file": sf}
+    rc, out, _ = lib.run([avh, "merge", "gen", str(seed), tier, os.path.join(cdir, "cases.txt"), sf], cwd=cdir, timeout=1500)
+    r["gen_stats"] = []
+    if rc != 0 or not os.path.exists(sf):
+        r["error"] = "merge generator failed: " + out[-400:]
+        return r
+    rc1, o1, _ = lib.run([avh, "tree", "run", DUMP, sf], cwd=cdir, timeout=2400)
+    rc2, o2, _ = lib.run([avm, DUMP, sf], cwd=cdir, timeout=2400)
+    a = [l for l in o1.split("\n") if l.startswith("S ")]
+    b = [l for l in o2.split("\n") if l.startswith("S ")]
+    r["n"] = len(a)
+    r["lines"] = sum(int(re.search(r"lines=(\d+)", l).group(1)) for l in a)
+    bm = {l.split()[1]: l for l in b}
+    r["mismatch"] = [int(l.split()[1]) for l in a if bm.get(l.split()[1]) != l]
+    if len(a) != len(b):
+        r["error"] = "model runner produced %d script results, implementation %d: %s" % (len(b), len(a), o2[-300:])
+    rc3, o3, _ = lib.run([avh_oracle, "tree", "oracle", DUMP, sf], cwd=cdir, timeout=2400)
+    r["fails"] = [l for l in o3.split("\n") if l.startswith("FAIL ")]
+    r["oracle_stat"] = [l for l in o3.split("\n") if l.startswith("STAT")]
+    if not r.get("mismatch") and not r.get("error"):
+        json.dump(r, open(meta, "w"))
+    return r
+
+
 def first_diff(avh, avm, script_text, tmpname):
     """verbose run of one script on both sides; returns the first differing lines"""
     p = os.path.join(TW, tmpname)
@@ -233,6 +271,10 @@ def run_tree_property(pid, tier, seed, props_file, enable="serialize", rule_extr
             for s in res2["shards"]:
                 s["shard"] = len(shards)
                 shards.append(s)
+            # third stream: merges of partial files incl. loads rejected at the merge stage
+            s3 = merge_stream(ctx, avh, avm, seed, tier, avh_oracle or avh)
+            s3["shard"] = len(shards)
+            shards.append(s3)
         errs = [s.get("error") for s in shards if s.get("error")]
         nscr = sum(s.get("n", 0) for s in shards)
         nlines = sum(s.get("lines", 0) for s in shards)
